@@ -21,6 +21,7 @@
 #define SOLREADER2_HPP
 
 #include <cstdio>
+#include <climits>
 
 #include "mp/sol-reader2.h"
 
@@ -499,7 +500,9 @@ Lget(char **sp, int *Lp)
     return 1;
   L = c - '0';
   while((c = *s) >= '0' && c <= '9') {
-    L = 10*L + c - '0';
+    if (L > (INT_MAX - (c - '0')) / 10)
+      return 1;                 // does not fit an int
+    L = 10*L + (c - '0');
     s++;
   }
   *Lp = L;
@@ -537,6 +540,8 @@ NLW2_SOLReadResultCode SOLReader2<SOLHandler>::gsufread(FILE* f) {
         || Lget(&s, &SR.tablines))
       return ReportBadLine(buf);
     if (sufheadcheck(&SR))
+      return ReportBadLine(buf);
+    if (SR.h.namelen > (int)sizeof(buf)-2)   // name + '\n' must fit buf
       return ReportBadLine(buf);
     if (!fgets(buf, sizeof(buf)-1, f)
         || (buf[SR.h.namelen-1] != '\n'
@@ -588,13 +593,14 @@ int SOLReader2<SOLHandler>::sufheadcheck(SufRead* sr) {
 
   n = (int)sr->h.n;
   if (sr->h.kind < 0 || sr->h.kind > 15 || n < 0 || sr->h.namelen < 2
-   || sr->h.tablen < 0)
-    return 1;
+   || sr->h.tablen < 0
+   || sr->h.namelen > (1<<16) || sr->h.tablen > (1<<26))
+    return 1;           // (absurd lengths: no int overflow below)
   i = (int)sr->h.kind & 3;
   if (sr->h.tablen
    && (sr->tablines > sr->h.tablen + 1 || sr->tablines < 1))
     return 1;
-  sr->xp.resize((sr->h.tablen + 2*sr->h.namelen + 6));
+  sr->xp.resize((size_t)sr->h.tablen + 2*(size_t)sr->h.namelen + 6);
   sr->name = (char*)sr->xp.data();
   sr->table = sr->name + sr->h.namelen;
   sr->tabname = sr->table + sr->h.tablen;
